@@ -2,6 +2,7 @@ import PetgraphModel.Common
 import PetgraphModel.Model.UnionFind
 import PetgraphModel.Spec.Partition
 import PetgraphModel.Spec.C19Scope
+import PetgraphModel.Spec.C19Slots
 /-
 C19 driver: runs the mirror model (`UF`) and the abstract partition (`QF`) side by side with the
 implementation's answers.  Spec-level rules are exactly the clauses of the property statement.
@@ -11,9 +12,23 @@ Scope: the property theorems quantify over histories within the capacity of the 
 the driver evaluates the Boolean form of that hypothesis (`C19Scope.newFitsB/stepFitsB/growFitsB`,
 sound by `C19_*_check`) and the element-count bound of the `u8` rank theorem (`rankWidthB`); a case
 that leaves the range is a generator error, answered `SPECFAIL generator left the proved range`.
+
+Wave 6 (corners of the public surface): the harness keeps TWO structures, the current one `a` and a
+second one `b` (`Spec/C19Slots.lean`: `newb n`, `clone`, `clone_from`, `swap`); every other request goes
+to `a` (`stepSlot`).  `is_empty`, the `parent` vector read through `Debug` (`parents`, mirror only), the
+`law …` lines (laws the harness checks against the implementation itself, using only what the property
+determines — `clone_from` ≡ `clone`, `Default` ≡ `new_empty` ≡ `with_capacity` ≡ `new(0)`, `Debug` never
+panics, a capacity call changes neither `len` nor `is_empty`, …; the driver expects `ok`, SPECFAIL
+otherwise) are judged here too.  Documented contracts that are NOT part of the property statement — the
+error / panic answers of the capacity calls for an impossible request (`cap 7..10`) and the bounds of
+`capacity()` (`doc capacity …` lines) — are compared at mirror level only (MODELDIFF).
+Nothing in this driver depends on the build profile: within the checked scope no arithmetic of
+`unionfind.rs` overflows (`C19_rank_u8`) and no `debug_assert!` can fire (`C19_no_fault`), so the debug and
+the release harness must give the same answers.
 -/
 namespace PetgraphModel.C19
 open PetgraphModel PetgraphModel.UF PetgraphModel.PartitionSpec PetgraphModel.C19Scope
+open PetgraphModel.C19Slots
 
 structure DState where
   uf : UF.State := UF.new 0 0
@@ -92,12 +107,26 @@ def modulusOf (w : String) : Nat :=
   match w with
   | "w=8" => 256 | "w=16" => 65536 | "w=32" => 4294967296 | _ => 0
 
-def step (d : DState) (req : List String) (impl : String) : DState × String :=
+/-- the answer the documentation prescribes for the capacity call `cap k` of the harness:
+`0..6` reserve / reserve_exact / try_reserve / try_reserve_exact (small requests), shrink_to_fit, shrink_to,
+capacity; `7`/`8` try_reserve(_exact)(usize::MAX): "If the capacity overflows … an error is returned";
+`9`/`10` reserve(_exact)(usize::MAX): "Panics if the new capacity exceeds isize::MAX bytes";
+`11` shrink_to(usize::MAX): "If the current capacity is less than the lower limit, this is a no-op" -/
+def capWant (k : Nat) : String :=
+  if k == 7 || k == 8 then "err" else if k == 9 || k == 10 then "panic" else "ok"
+
+/-- one request on the CURRENT structure -/
+def stepSlot (d : DState) (req : List String) (impl : String) : DState × String :=
   let runOp (op : UF.Op) : DState × String :=
     let (uf', o) := UF.step d.uf op
     ({ d with uf := uf' }, showOut o)
   match req with
-  | ["case", k, w] => ({ uf := UF.new (modulusOf w) 0 }, s!"case {k}")
+  | "law" :: name :: _ =>
+    -- a law the harness checked against the implementation itself
+    (d, if impl == "ok" then "ok" else s!"SPECFAIL law {name} does not hold: {impl}")
+  | "doc" :: _ :: _ =>
+    -- a documented contract outside the property statement (bounds of `capacity()`): mirror level
+    (d, cmpExact "ok" impl)
   | ["new", n] =>
     let n := n.toNat?.getD 0
     let uf' := UF.new d.uf.modulus n
@@ -123,7 +152,16 @@ def step (d : DState) (req : List String) (impl : String) : DState × String :=
       | "find_mut" => some (.findMut xn) | "try_find_mut" => some (.tryFindMut xn)
       | _ => none
     match mk with
-    | none => (d, if f == "cap" then verdict (expect "ok" impl) "ok" impl else s!"SPECFAIL bad request {req}")
+    | none =>
+      if f == "cap" then
+        -- the model's capacity op is the identity; the answer is the documented one
+        -- ("no observable effect": an ordinary request must answer `ok` — SPECFAIL otherwise; the error /
+        -- panic of an impossible request is documented on the call but not part of the property
+        -- statement — mirror only; the dump that follows every `cap` line judges the partition)
+        let (d', _) := runOp .capacityOp
+        let spec := if capWant xn == "ok" then expect "ok" impl else none
+        (d', verdict spec (capWant xn) impl)
+      else (d, s!"SPECFAIL bad request {req}")
     | some op =>
       let (d', m) := runOp op
       let isTry := f.startsWith "try_"
@@ -161,6 +199,12 @@ def step (d : DState) (req : List String) (impl : String) : DState × String :=
   | ["len"] =>
     let (d', m) := runOp .len
     (d', verdict (expect (toString d.qf.len) impl) m impl)
+  | ["is_empty"] =>
+    (d, verdict (expect (showBool (d.qf.len == 0)) impl) (showBool (isEmptyM d.uf)) impl)
+  | ["parents"] =>
+    -- the `parent` vector as printed by the derived `Debug` (shows which links path halving rewrote):
+    -- not determined by the property ("path compression never changes any answer"), mirror only
+    (d, verdict none (showNats d.uf.parent) impl)
   | ["ranks"] =>
     -- the `rank` vector as printed by the derived `Debug`: not determined by the property, so it is
     -- compared exactly with the mirror model only (a difference is a MODELDIFF, never a SPECFAIL)
@@ -181,5 +225,36 @@ def step (d : DState) (req : List String) (impl : String) : DState × String :=
     let spec := if impl == "panic" then some "find panicked on an in-range element" else dumpOk d reps
     ({ d with lastDump := some reps, touched := [] }, verdict spec m impl)
   | _ => (d, s!"SPECFAIL bad request {req}")
+
+/-- driver state: the current structure `a` and the second one `b` -/
+structure MState where
+  a : DState := {}
+  b : DState := {}
+
+def step (m : MState) (req : List String) (impl : String) : MState × String :=
+  let sl : Slots := { a := m.a.uf, b := m.b.uf }
+  match req with
+  | ["case", k, w] =>
+    let z : DState := { uf := UF.new (modulusOf w) 0 }
+    ({ a := z, b := z }, s!"case {k}")
+  | ["newb", n] =>
+    let n := n.toNat?.getD 0
+    let r := sstep sl (.newB n)
+    let spec := (scopeCheck (sFitsB sl (.newB n)) r.1.b r.1.b s!"new({n})").orElse fun _ => expect "ok" impl
+    ({ m with b := { uf := r.1.b, qf := QF.new n } }, verdict spec (showOut r.2) impl)
+  | ["clone"] =>
+    -- `b = a.clone()`: an exact copy, representatives included
+    let r := sstep sl .clone
+    ({ m with b := { m.a with uf := r.1.b } }, verdict (expect "ok" impl) (showOut r.2) impl)
+  | ["clone_from"] =>
+    -- `b.clone_from(&a)`: whatever `b` was before, it is now an exact copy of `a`
+    let r := sstep sl .cloneFrom
+    ({ m with b := { m.a with uf := r.1.b } }, verdict (expect "ok" impl) (showOut r.2) impl)
+  | ["swap"] =>
+    let r := sstep sl .swap
+    ({ a := { m.b with uf := r.1.a }, b := { m.a with uf := r.1.b } }, verdict (expect "ok" impl) (showOut r.2) impl)
+  | _ =>
+    let (a', v) := stepSlot m.a req impl
+    ({ m with a := a' }, v)
 
 end PetgraphModel.C19
